@@ -33,6 +33,8 @@ struct Moments {
 
 struct VarAgg {
     sqrt: bool,
+    /// population (divide by n) instead of sample (n - 1)
+    pop: bool,
 }
 
 impl Aggregate<Moments, Option<f64>> for VarAgg {
@@ -56,7 +58,14 @@ impl Aggregate<Moments, Option<f64>> for VarAgg {
     }
     fn finalize(&self, _: &mut Context<'_>, m: Option<Moments>) -> rusqlite::Result<Option<f64>> {
         Ok(m.and_then(|m| {
-            if m.n < 2.0 {
+            if self.pop {
+                if m.n < 1.0 {
+                    None
+                } else {
+                    let v = m.m2 / m.n;
+                    Some(if self.sqrt { v.sqrt() } else { v })
+                }
+            } else if m.n < 2.0 {
                 None
             } else {
                 let v = m.m2 / (m.n - 1.0);
@@ -150,12 +159,14 @@ impl Db {
             Ok(s)
         })?;
         conn.create_scalar_function("sqrt_safe", 1, det, |ctx| Ok(num(ctx.get_raw(0)).map(|x| x.sqrt())))?;
-        conn.create_aggregate_function("stddev", 1, det, VarAgg { sqrt: true })?;
-        conn.create_aggregate_function("stddev_samp", 1, det, VarAgg { sqrt: true })?;
-        conn.create_aggregate_function("std", 1, det, VarAgg { sqrt: true })?;
-        conn.create_aggregate_function("variance", 1, det, VarAgg { sqrt: false })?;
-        conn.create_aggregate_function("var_samp", 1, det, VarAgg { sqrt: false })?;
-        conn.create_aggregate_function("var", 1, det, VarAgg { sqrt: false })?;
+        conn.create_aggregate_function("stddev", 1, det, VarAgg { sqrt: true, pop: false })?;
+        conn.create_aggregate_function("stddev_samp", 1, det, VarAgg { sqrt: true, pop: false })?;
+        conn.create_aggregate_function("std", 1, det, VarAgg { sqrt: true, pop: false })?;
+        conn.create_aggregate_function("variance", 1, det, VarAgg { sqrt: false, pop: false })?;
+        conn.create_aggregate_function("var_samp", 1, det, VarAgg { sqrt: false, pop: false })?;
+        conn.create_aggregate_function("var", 1, det, VarAgg { sqrt: false, pop: false })?;
+        conn.create_aggregate_function("var_pop", 1, det, VarAgg { sqrt: false, pop: true })?;
+        conn.create_aggregate_function("stddev_pop", 1, det, VarAgg { sqrt: true, pop: true })?;
         Ok(Db { conn, rng, calls })
     }
 
